@@ -31,8 +31,26 @@ func init() {
 
 func genC20(r *sim.Rand, tier string) *sim.Case {
 	c := &sim.Case{Cfg: map[string]int64{}}
-	n := r.Pick(1, 2, 3, 3, 8, 8)
+	// 64, 256 (the manager's default) and 512 (what the raft apply path uses): stripe
+	// bookkeeping that is exact for a handful of stripes need not be for many.
+	n := r.Pick(1, 2, 3, 3, 8, 8, 64, 256, 512)
 	ntasks := r.Pick(2, 2, 3, 3, 4)
+	// With many stripes the keys come from a small pool of stripes at "interesting"
+	// distances from one base stripe, so that requests still share keys.
+	var pool []int
+	if n > 8 {
+		base := r.Intn(n)
+		pool = []int{base}
+		for len(pool) < 5 {
+			pool = append(pool, (base+r.Pick(1, 7, 16, 31, 32, 33, 48, 63, 64, 65, 128, 192, 255, 256)*r.Pick(1, 1, 2))%n)
+		}
+	}
+	stripe := func() int {
+		if pool != nil {
+			return pool[r.Intn(len(pool))]
+		}
+		return r.Intn(n)
+	}
 	c.Cfg["stripes"] = int64(n)
 	c.Cfg["tasks"] = int64(ntasks)
 	c.Cfg["sticky"] = int64(r.Pick(0, 0, 2, 4))
@@ -47,7 +65,7 @@ func genC20(r *sim.Rand, tier string) *sim.Case {
 			case len(parts) > 0 && r.Intn(6) == 0:
 				parts = append(parts, parts[r.Intn(len(parts))]) // duplicate
 			default:
-				parts = append(parts, fmt.Sprintf("%d.%d", r.Intn(n), r.Pick(0, 0, 0, 1, 2)))
+				parts = append(parts, fmt.Sprintf("%d.%d", stripe(), r.Pick(0, 0, 0, 1, 2)))
 			}
 		}
 		c.Ops = append(c.Ops, sim.Op{K: "acq", A: int64(r.Intn(ntasks)), B: int64(r.Intn(3)), C: int64(r.Pick(1, 1, 1, 2)), S: strings.Join(parts, ",")})
@@ -288,8 +306,14 @@ func execC20(t *testing.T, c *sim.Case) *sim.Result {
 }
 
 // latchKeys finds, for every stripe, `variants` distinct keys hashing to it.
+var latchKeyTabs = map[int][][][]byte{}
+
 func latchKeys(n, variants int) [][][]byte {
+	if t, ok := latchKeyTabs[n*8+variants]; ok {
+		return t
+	}
 	tab := make([][][]byte, n)
+	defer func() { latchKeyTabs[n*8+variants] = tab }()
 	missing := n * variants
 	for i := 0; missing > 0; i++ {
 		k := []byte("key-" + strconv.Itoa(i))
